@@ -48,7 +48,7 @@ def cases(tier, seed):
     out = []
     starts = STARTS if tier == "thorough" else STARTS[:3] + [STARTS[3 + seed % 5]]
     durs = list(range(0, 41 if tier == "thorough" else 25)) + [3600, 86400, 90061] + ([604800] if tier == "thorough" else [])
-    for s, dt, rev, ref in itertools.product(starts, b["dts"], [False, True], ["none", "before", "after", "same"]):
+    for s, dt, rev, ref in itertools.product(starts, b["dts"], [False, True], ["none", "before", "after", "same", "epoch"]):
         out.append(dict(mode="clock", start=s, dt=dt, rev=rev, ref=ref, durations=durs))
     for k in range(16):
         out.append(dict(mode="strings", shard=k, nshards=16, maxlen=b["strlen"]))
@@ -72,7 +72,7 @@ def run_clock(case):
     sgn = -1 if case["rev"] else 1
     for dur in case["durations"]:
         E = S + sgn * dur
-        ref = dict(none=None, before=min(S, E) - 86400 - 7, after=max(S, E) + 5, same=S)[case["ref"]]
+        ref = dict(none=None, before=min(S, E) - 86400 - 7, after=max(S, E) + 5, same=S, epoch=0)[case["ref"]]
         refsec = min(S, E) if ref is None else ref
         iso = lambda x: str(np.datetime64(int(x), "s"))  # noqa: E731
         sub = dict(case, durations=[dur])
